@@ -244,6 +244,24 @@ def check(run):
             g = [(q.render(f, a), p) for a, p in q.guards_at(f, i)]
             run.check(any('first == ep' in t.replace('(', '').replace(')', '') or ('->first' in t and '==' in t) for t, p in g if not p) or any('&&' in t or True for t, p in g if not p and 'end()' in t), 'R5', 'exclusive-insert', fname, f.loc(i),
                       'the insert is not dominated by the failed (present && equal key) test', 'insert only when the key is absent')
+        # port 0: the probe for a free port walks the WHOLE ephemeral range - somewhere in the probe loop the candidate is
+        # set back to the bottom of the range (a literal port >= 1024, or the wrapping counter m_next_bind_port re-read), so
+        # that ports below the first candidate are tried before address_in_use is reported
+        in_loop = lambda n_: f.cfg.node_block(n_) is not None and f.cfg.node_block(n_) in f.cfg.reach_from(f.cfg.node_block(n_))
+        psets = [c for c in f.calls() if (q.callee_name(c) or '').endswith('endpoint::port') and len(c.get('args', [])) == 1 and in_loop(c)]
+        if not psets:
+            run.unrecognised('R5', 'probe-wraps', fname, f.loc(), 'no ep.port(candidate) inside a loop of %s (the port-0 probe idiom changed)' % fname)
+        else:
+            def wraps(c):
+                for x in walk(c['args'][0]):
+                    if x['k'] == 'int' and isinstance(x.get('v'), int) and 1024 <= x['v'] <= 65535:
+                        return True
+                    if x['k'] == 'member' and x.get('name') == 'm_next_bind_port':
+                        return any(in_loop(a.site) for a in q.field_accesses(f, {S + '::m_next_bind_port'}) if a.kind == 'assign' and is_node(a.site))
+                return False
+            run.check(any(wraps(c) for c in psets), 'R5', 'probe-wraps', fname, f.loc(psets[0]),
+                      'the port-0 probe only ever moves the candidate upwards (%s): once the counter is near the top of the range a single taken port makes bind(port 0) - and every implicit bind of connect/send_to - fail with address_in_use although nearly every port is free' % '; '.join(q.render(f, c) for c in psets),
+                      'the probe re-enters the bottom of the ephemeral range before giving up')
         priv = [n for n in f.all_nodes() if n['k'] == 'bin' and n['op'] == '&&' and '1024' in q.render(f, n)]
         run.check(bool(priv), 'R5', 'privileged-ports', fname, f.loc(), 'no test of ports below 1024', 'ports 1..1023 rejected')
     for fname in (IO + '::bind_socket', IO + '::bind_udp_socket'):
